@@ -330,3 +330,57 @@ def calls_to(ctx, b, q):
                 if t[0] == 'call' and t[1] == q and t not in out:
                     out.append(t)
     return out
+
+
+def variant_call_paths(ctx, b, scrut_pred, adt_q, max_paths=64):
+    """What the body does for each variant of an enum-valued scrutinee, however the dispatch is spelled (one `match`,
+    several `if let`s with shared code before and after, early returns): for every variant V, the acyclic paths from the
+    entry to a return that take V's edge at every discriminant switch on the scrutinee; {V: [[(block, callee, call term)]]}
+    with the crate-local calls met along each path, in order.  None when the enum or a switch cannot be read."""
+    an = ctx.an(b)
+    adt = ctx.F.adts.get(adt_q)
+    if adt is None:
+        return None
+    idx = {str(v.get('idx')): v['name'] for v in adt.get('variants', [])}
+    sw = {}
+    for si, t in b.terminators('switch'):
+        if si not in an.cfg.reach:
+            continue
+        c = an.term_at(si, len(b.blocks[si]['st']), t['o'])
+        if c[0] == 'discr' and scrut_pred(strip_all(c[1])):
+            sw[si] = t
+    if not sw:
+        return None
+    calls_at = {}
+    for bi, d, ct in calls_in(ctx, b):
+        calls_at[bi] = (bi, d, ct)
+    out = {}
+    for V in idx.values():
+        paths = []
+
+        def walk(bb, seen, acc):
+            if len(paths) >= max_paths:
+                return
+            if bb in seen:
+                return
+            seen = seen | {bb}
+            if bb in calls_at and calls_at[bb][1] and calls_at[bb][1].startswith('raqote::'):
+                acc = acc + [calls_at[bb]]
+            t = b.blocks[bb]['t']
+            if t['k'] == 'return':
+                paths.append(acc)
+                return
+            if bb in sw:
+                tgt = None
+                for val, tg in sw[bb]['targets']:
+                    if idx.get(val) == V:
+                        tgt = tg
+                walk(sw[bb]['otherwise'] if tgt is None else tgt, seen, acc)
+                return
+            for nx in an.cfg.succ[bb]:
+                if b.blocks[nx].get('cleanup'):
+                    continue
+                walk(nx, seen, acc)
+        walk(0, frozenset(), [])
+        out[V] = paths
+    return out
